@@ -152,6 +152,16 @@ func discharge(u *Unit, o *Obligation, cfg *solveCfg, idx int) {
 		if r.status == "sat" || r.status == "unsat" {
 			o.Result = r.status
 			o.Solver = "z3-new(quantifier-free part)"
+			if r.status == "sat" && os.Getenv("GOVC_NOFULLCOVER") == "" {
+				// the quantified facts can be contradictory where the quantifier-free ones are not: a short attempt
+				// at the whole script; only a definite unsat counts (unknown / timeout is the normal answer)
+				rf := runSolver("z3-new", file, 2)
+				o.Secs += rf.secs
+				if rf.status == "unsat" {
+					o.Result = "unsat"
+					o.Solver = "z3-new(all facts)"
+				}
+			}
 			return
 		}
 		// undecided vacuity guards are not failures; they are reported as undecided
